@@ -63,22 +63,65 @@ def run_rules(pid, ctx):
 
 
 def run_controls(pid, tier):
-    """Positive controls: every rule with an expected count of zero must fire on the fixture crate."""
+    """Positive controls: every generic analysis core used by this property must fire on its deliberately
+    bad fixture instance and stay silent on the good twin (fixtures/positive, same driver, every run)."""
+    import controls
     out = []
-    ctrls = registry.PROPS[pid].get("controls", [])
-    if not ctrls:
+    wanted = registry.PROPS[pid].get("controls", [])
+    if not wanted:
         return out
     fx_dir = os.path.join(VERIF, "fixtures", "positive")
-    fdir = facts.ensure_fixture_facts(fx_dir)
-    unit = facts.Unit(os.path.join(fdir, "poscontrol-lib.facts.json"))
-    for rule_id, fn in ctrls:
+    try:
+        fdir = facts.ensure_fixture_facts(fx_dir)
+        unit = facts.Unit(os.path.join(fdir, "poscontrol-lib.facts.json"))
+    except Exception as e:
+        return [{"rule": c, "fired": False, "good_silent": False, "error": "fixture extraction failed: %r" % e} for c in wanted]
+    for cid in wanted:
         try:
-            fired = fn(unit)
+            res = controls.CONTROLS[cid](unit)
+            out.append({"rule": cid, **res})
         except Exception as e:
-            fired = []
-            out.append({"rule": rule_id, "fired": False, "error": repr(e)})
-            continue
-        out.append({"rule": rule_id, "fired": bool(fired), "reports": [str(x)[:300] for x in fired[:3]]})
+            out.append({"rule": cid, "fired": False, "good_silent": False, "error": repr(e)})
+    return out
+
+
+def sensitivity_sweep(pid):
+    """Thorough tier: apply every mutant / seeded change kept for this property to a scratch copy of the
+    *current* tree (outside /repo and /verif, removed afterwards), re-extract facts and run this property's
+    quick check on it. Measures the checker, not the repository: never changes the verdict."""
+    import concurrent.futures as cf
+    import glob
+    import shutil
+    import subprocess
+    import tempfile
+    patches = sorted(glob.glob(os.path.join(VERIF, "mutants", pid, "*.patch"))) + sorted(glob.glob(os.path.join(VERIF, "seeded", pid + "-*", "patch.diff")))
+
+    def one(patch):
+        scr = tempfile.mkdtemp(prefix="asca-sweep-", dir=os.environ.get("TMPDIR") or "/tmp")
+        try:
+            subprocess.run(["rsync", "-a", "--exclude", "target", "--exclude", ".git", facts.REPO + "/", scr + "/repo/"], check=True)
+            r = subprocess.run(["patch", "-p1", "-s", "--no-backup-if-mismatch", "-i", patch], cwd=scr + "/repo", capture_output=True, text=True)
+            name = os.path.relpath(patch, VERIF)
+            if r.returncode != 0:
+                return {"mutant": name, "status": "skipped: patch no longer applies"}
+            env = dict(os.environ, ASCA_REPO=scr + "/repo", VERIF_EVIDENCE_DIR=scr + "/ev", VERIF_REPLAY_DIR=scr + "/replay", VERIF_TIER="quick")
+            p = subprocess.run([os.path.join(VERIF, "check"), pid, "quick"], env=env, capture_output=True, text=True)
+            reps = []
+            d = os.path.join(scr, "replay", pid)
+            if os.path.isdir(d):
+                for f in sorted(os.listdir(d)):
+                    try:
+                        j = json.load(open(os.path.join(d, f)))
+                        reps.append("%s %s: %s" % (j.get("rule"), (j.get("loc") or "").replace(scr + "/repo/", ""), (j.get("msg") or j.get("reason") or "")[:160]))
+                    except Exception:
+                        pass
+            return {"mutant": name, "status": "detected" if p.returncode == 1 else "NOT detected", "reports": reps[:4]}
+        finally:
+            shutil.rmtree(scr, ignore_errors=True)
+    out = []
+    with cf.ThreadPoolExecutor(max_workers=int(os.environ.get("VERIF_JOBS", "6"))) as ex:
+        for res in ex.map(one, patches):
+            out.append(res)
     return out
 
 
@@ -145,12 +188,18 @@ def main(argv):
                 json.dump({"property": pid, **rep.to_json()}, fh, indent=1, ensure_ascii=False)
             violations.append((rep, rp))
     for c in controls:
-        if not c["fired"]:
+        if not (c["fired"] and c.get("good_silent", True)):
             n += 1
             rp = os.path.join(replay_dir, "%03d.json" % n)
             json.dump({"property": pid, "reason": "positive-control-silent", "control": c}, open(rp, "w"), indent=1)
             violations.append(("positive-control-silent:%s" % c["rule"], rp))
 
+    sweep = []
+    if tier == "thorough" and results and not os.environ.get("VERIF_NO_SWEEP"):
+        try:
+            sweep = sensitivity_sweep(pid)
+        except Exception as e:
+            sweep = [{"mutant": "-", "status": "sweep failed: %r" % e}]
     # ---- evidence
     n_inst = sum(len(r.instances) for r in results)
     n_nontriv = sum(r.nontrivial for r in results)
@@ -188,6 +237,13 @@ def main(argv):
         "does_not_decide": meta.get("does_not_decide", ""),
         "exhaustive": False,
     }
+    if tier == "thorough":
+        cov["mutants_applied"] = len([x for x in sweep if not x["status"].startswith("skipped")])
+        cov["mutants_detected"] = len([x for x in sweep if x["status"] == "detected"])
+        cov["mutants"] = sweep
+        cov["mutant_note"] = ("sensitivity sweep over /verif/mutants/%s and /verif/seeded/%s-*: seeded changes that break only the value-level part of the "
+                              "property (listed under does_not_decide) are expected to be NOT detected" % (pid, pid))
+        cov["test_units_analysed"] = bool(lib is not None and getattr(ctx, "lib_t", None) is not None) if results else False
     if extraction_error:
         cov["extraction_error"] = extraction_error[:2000]
     ev = {
@@ -208,6 +264,9 @@ def main(argv):
     # ---- output
     for r in results:
         print("%s %-7s instances=%d reports=%d  %s" % (pid, r.rule, len(r.instances), len(r.reports), r.title))
+    for x in sweep:
+        if x["status"] == "NOT detected":
+            print("CHECKER-INSENSITIVE mutant=%s" % x["mutant"])
     for rep, k in known_present:
         print("KNOWN-FINDING: property=%s %s [%s %s] %s" % (pid, k.get("what", rep.msg), rep.rule, rep.loc, rep.key))
     MAXP = 30
